@@ -563,19 +563,89 @@ class IdleRun:
         self.log.append(obs)
         return obs
 
-    async def write(self, w: int, cmds: list[bytes]) -> dict:
-        """a burst: all commands in one write, executed back to back"""
+    def _burst(self, cmds: list[bytes]) -> bytes:
         buf = b''
         for cmd in cmds:
             self.tag += 1
             buf += b'w%d ' % self.tag + cmd + b'\r\n'
-        out = await self.writers[w].send(buf)
-        self.last_writer_output = out
+        return buf
+
+    def _modseq(self):
+        """glass box: the selected mailbox's highest mod-sequence (dict backend);
+        None if the backend does not look as expected"""
+        try:
+            sets = list(self.env.config.set_cache.values())
+            if len(sets) != 1:
+                return None
+            return sets[0][0]._inbox._mod_sequences.highest
+        except Exception:
+            return None
+
+    async def _after_burst(self, n_cmds: int, before):
+        """read the ground truth.  A burst that neither changes what a client sees
+        nor advances the mod-sequence is not a change of the history (the idlers it
+        woke nevertheless are reported instead)"""
+        started_before, modseq_before = before
         await settle()
-        self.hi += len(cmds)
-        self.truths[self.hi] = await self.truth()
+        truth = await self.truth()
         await settle()
-        return self.observe()
+        modseq = self._modseq()
+        if truth != self.truths[self.hi] or modseq is None or modseq != modseq_before:
+            self.hi += n_cmds
+            self.truths[self.hi] = truth
+            return self.observe(), None
+        woken = [s for s, c in enumerate(self.idlers)
+                 if len(c.verif_batches) > started_before[s]]
+        return self.observe(), woken
+
+    async def write(self, w: int, cmds: list[bytes]):
+        """a burst: all commands in one write, executed back to back.  Returns
+        (observation, None) or (observation, woken idlers) for a no-change burst"""
+        started = ([len(c.verif_batches) for c in self.idlers], self._modseq())
+        self.last_writer_output = await self.writers[w].send(self._burst(cmds))
+        return await self._after_burst(len(cmds), started)
+
+    async def race(self, w: int, cmds: list[bytes], s: int, line: bytes, offset: int):
+        """the writer's burst and the client line of idler s are fed `offset`
+        event-loop turns apart (offset < 0: the line first) without waiting for
+        quiescence in between"""
+        started = ([len(c.verif_batches) for c in self.idlers], self._modseq())
+        c = self.idlers[s]
+
+        def feed_line():
+            if c.drain_gate is not None:
+                c.drain_gate.set()
+            c.feed_nowait(line)
+
+        def feed_burst():
+            self.writers[w].feed_nowait(self._burst(cmds))
+
+        first, second = (feed_burst, feed_line) if offset >= 0 else (feed_line, feed_burst)
+        first()
+        for _ in range(abs(offset)):
+            await asyncio.sleep(0)
+        second()
+        await settle()
+        self.last_writer_output = self.writers[w].take()
+        return await self._after_burst(len(cmds), started)
+
+    async def noop_after_idle(self) -> list:
+        """after IDLE has ended: one NOOP on every such session, then its client
+        must know everything -- (idler, complete?, what the NOOP said)"""
+        res = []
+        truth = None
+        for s, c in enumerate(self.idlers):
+            if s not in self.ended or c.closed:
+                continue
+            out = await c.send(b'n9 NOOP\r\n')
+            self.shadows[s].feed(out)
+            if truth is None:
+                truth = await self.truth()
+            res.append((s, self.shadows[s].matches(truth), out.decode('latin-1'),
+                        [None if m is None else sorted(x.decode() for x in m)
+                         for m in self.shadows[s].msgs],
+                        [sorted(x.decode() for x in m) for m in truth]))
+        return res
 
     async def release(self, s: int) -> tuple[dict, bool]:
         c = self.idlers[s]
